@@ -149,6 +149,36 @@ def run(tier):
     if progs:
         chk.add_sample({"job": "random", "source": printer.program(progs[0])})
 
+    # ---- state-site positions (forms outside Lang): a stateful call written in a sub-expression slot of any form
+    # against the same program with the call bound by a let first; Lockstep.tla validates inline against reference
+    import sitepos
+    sprogs = sitepos.programs()
+    sreqs = []
+    for name, inline, ref in sprogs:
+        sreqs.append({"id": name + "|inline", "src": inline, "n": 8, "backends": ["vm", "wasm"], "sched": True})
+        sreqs.append({"id": name + "|ref", "src": ref, "n": 8, "backends": ["vm", "wasm"], "sched": True})
+    sby = {req["id"]: (out, crash) for req, out, crash in vlib.run_harness("run", sreqs, timeout_per_req=20)}
+    srecords, smeta = [], {}
+    for name, inline, ref in sprogs:
+        (a, ca), (b, cb) = sby[name + "|inline"], sby[name + "|ref"]
+        case = {"src": inline, "reference": ref, "name": name}
+        if ca or cb or a is None or b is None:
+            chk.violation(f"runtime process died on {name}: {ca or cb}\n{inline}", case, key=vlib.canon_key(inline))
+            continue
+        for be in ("vm", "wasm"):
+            if b[be].get("status") != "ok":
+                raise vlib.ToolError(f"site table: the reference variant of {name} does not run on {be}: {b[be].get('status')} "
+                                     f"{b[be].get('msg', '')[:200]} {json.dumps(b[be].get('diags', ''))[:300]}")
+            rid = f"{name}|{be}"
+            srecords.append({"id": rid, "a": langpipe.side(b[be], False), "b": langpipe.side(a[be], False), "cmpwords": False})
+            smeta[rid] = (case, be)
+    for rid, f in langpipe.validate_lockstep(chk, srecords, "c02site").items():
+        case, be = smeta[rid]
+        chk.violation(f"{be}: {rid.split('|')[0]}: a stateful call written inside the form computes other samples than the same "
+                      f"call bound by a let first ({f['what']} at step {f['at']})\n{case['src']}", dict(case, backend=be),
+                      key=vlib.canon_key(case["src"]))
+    chk.cov["site_position_programs"] = len(sprogs)
+
     # pinned findings
     pins = pinned(chk, "C02")
     if pins:
